@@ -143,7 +143,7 @@ QUICK_LENS = list(range(0, 17)) + [31, 63, 255]
 
 
 def start_addresses(burst, size, ln):
-    """Start-address grid: every alignment class w.r.t. the transfer size (and 2 more address bits) at a plain base, the
+    """Start-address grid: every alignment class w.r.t. the transfer size (and at least one more address bit) at a plain base, the
     placements that end exactly at a 4 KiB boundary (carry chain through bit 11) and the same at the top of the 32-bit
     space; WRAP: every transfer-aligned position of four windows (even / odd window index, last window of a page, last
     window of the address space)."""
@@ -155,7 +155,7 @@ def start_addresses(burst, size, ln):
             for p in range(ln + 1):
                 out.append(wb + p * nb)
     else:
-        span = max(16, 4 * nb)
+        span = max(16, 2 * nb)
         out += [0x1000 + lo for lo in range(span)]
         end = tot if burst == ref.INCR else nb
         for base in (0x3000, 0x100000000):
